@@ -782,6 +782,18 @@ func run(c *runner.Ctx) {
 			}
 		}
 	}
+	// dumps after a Dump of the empty cache: whatever a Dump that had nothing to print did with its scratch buffer, the
+	// Dumps that follow - one of them overlapping another thread's - print their own state each
+	dumpAfterEmptyDump := func(emit func([][]opk)) {
+		t1s := [][]opk{{{'P', ""}, {'S', "a"}, {'P', ""}}, {{'P', ""}, {'S', "a"}, {'S', "b"}, {'P', ""}}, {{'P', ""}, {'P', ""}, {'S', "a"}, {'P', ""}}}
+		t2s := append(allProgs([]opk{{'P', ""}, {'S', "b"}, {'L', "a"}, {'N', ""}, {'D', "a"}}, 1), allProgs([]opk{{'P', ""}, {'S', "b"}, {'L', "a"}}, 2)...)
+		for _, a := range t1s {
+			for _, b := range t2s {
+				emit([][]opk{a, b})
+			}
+		}
+	}
+	emptyCfgs := []cfgT{{1, nil, 0}, {2, nil, 0}}
 	var plans []plan
 	if !race {
 		if c.Thorough() {
@@ -812,6 +824,11 @@ func run(c *runner.Ctx) {
 				{"H2x2-bound1", 1, pairs(p2), cfgs[1:2], false},
 			}
 		}
+	}
+	if c.Thorough() {
+		plans = append(plans, plan{"H2-dumps-after-a-dump-of-the-empty-cache-bound3", 3, dumpAfterEmptyDump, emptyCfgs, false})
+	} else {
+		plans = append(plans, plan{"H2-dumps-after-a-dump-of-the-empty-cache-bound2", 2, dumpAfterEmptyDump, emptyCfgs, false})
 	}
 	// faults: every pair of 2-operation programs over an alphabet in which operations fail inside the cache's critical
 	// section (the user's removal callback panics; a key cannot be hashed) and the caller recovers
